@@ -133,3 +133,18 @@ subroutine k1(d, r)
 end subroutine
 end module
 """, DerivedTypeArgumentsTransformation(all_derived_types=True))
+
+run('C34 shape: explicit range inside a rank-reducing section: x(:,:) becomes x(4) (rank 1)', """module m
+contains
+subroutine drv(a, r)
+  integer, intent(inout) :: a(2, 3, 4)
+  integer, intent(out) :: r
+  call k1(a(1:2, 2, :), r)
+end subroutine
+subroutine k1(x, r)
+  integer, intent(inout) :: x(:, :)
+  integer, intent(out) :: r
+  r = size(x, 2)
+end subroutine
+end module
+""", ArgumentArrayShapeAnalysis(), ExplicitArgumentArrayShapeTransformation())
